@@ -1,6 +1,7 @@
 package driver
 
 import (
+	"math"
 	"fmt"
 	"reflect"
 	"sort"
@@ -74,6 +75,7 @@ type owCase struct {
 	mixedWidths                                      bool
 	confluence                                       bool
 	dir                                              string
+	negZeros                                         bool
 	nameStyle                                        int // layout of the /META/models strings
 	rolling                                          bool // -final-states names the file the initial states come from
 }
@@ -171,6 +173,19 @@ func drawOwCase(w *simrt.Tape) *owCase {
 				}
 				if m.hasInputs {
 					nd.inputs = domains.GenInputs(w, name, col, m.maxDim, c.T)
+					if m.destOK && w.Choose(10) == 9 {
+						// stored series with negative zeros (what a subtraction of equal numbers rounded
+						// towards minus infinity, or a -0 in a source file, leaves): a link that adds +0
+						// turns them into +0, bit for bit
+						for _, ser := range nd.inputs {
+							for t := range ser {
+								if ser[t] == 0 || w.Choose(6) == 5 {
+									ser[t] = math.Copysign(0, -1)
+								}
+							}
+						}
+						c.negZeros = true
+					}
 				}
 				nodes = append(nodes, nd)
 			}
@@ -816,6 +831,9 @@ func runOwCase(rc *RunCtx, c *owCase, ext map[string]string) *Outcome {
 	}
 	if c.rolling {
 		o.probe("final_states_written_over_the_initial_states_file")
+	}
+	if c.negZeros {
+		o.probe("stored_inputs_with_negative_zeros")
 	}
 	for _, m := range c.models {
 		for _, g := range m.gens {
